@@ -9,7 +9,8 @@ with a *symbolic* verb and a *symbolic* path  prefix + "/" + tail [+ "/init" | "
 Decided: the rejecting callback is skipped  ==>  verb == "OPTIONS"  or  path under
 "/.well-known/"  or  path == the health endpoint (exactly, and only when it is enabled)  or
 (PKCE on and) path under the directory of the OAuth browser-flow routes; and whenever the callback
-runs, the middleware answers 401 (nothing continues to the resource).
+runs, the middleware stops the request with an HTTP error (nothing continues to the resource; the status
+itself is not judged, nor is a refusal issued without consulting the callback).
 
 A second item uses path = prefix + "/" + NAME + extra, NAME ranging over the first path segments
 the live routers register (health, _oauth, __introspect_token__ ...) and ".well-known", so that
@@ -23,6 +24,7 @@ copied.
 
 from __future__ import annotations
 
+import keyword
 import types
 import warnings
 from typing import Protocol
@@ -30,7 +32,7 @@ from typing import Protocol
 import falcon
 import falcon.testing
 
-from engine.api import cond, is_open, pick
+from engine.api import HarnessModelError, cond, is_open, pick
 
 from vgi_rpc.http import OAuthResourceMetadata, make_wsgi_app
 from vgi_rpc.http.server import _factory, _middleware
@@ -53,7 +55,8 @@ ASSUMPTIONS = [
     "authenticate := stub that records the call and raises PermissionError (a rejection); the request is a duck-typed object "
     "with .method/.path/.remote_addr/.user_agent/.cookies/.context (the only attributes the middleware reads)",
     "RpcServer does not expose protocol members whose name starts with '_' (checked concretely at import), so a path under "
-    "'<prefix>/_oauth/' can only reach the OAuth resources or a 404",
+    "'<prefix>/_oauth/' can only reach the OAuth resources or a 404 (also checked end to end at import: a service that HAS a member "
+    "'_oauth' is served by the real PKCE apps and POSTed '<prefix>/_oauth', '/_oauth/init', '/_oauth/exchange' — nothing runs)",
 ]
 
 _CALLS = {"n": 0}
@@ -70,11 +73,16 @@ class _Svc(Protocol):
     def _oauth(self) -> str: ...
 
 
+_RAN: list[str] = []  # service code of the grid apps that ran
+
+
 class _Impl:
     def ping(self) -> str:
+        _RAN.append("ping")
         return "pong"
 
     def _oauth(self) -> str:
+        _RAN.append("_oauth")
         return "x"
 
 
@@ -160,6 +168,31 @@ if "ping" not in _exposed or any(m.startswith("_") and not m.startswith("__") fo
     raise RuntimeError("RpcServer now exposes underscore-prefixed protocol members; ASSUMPTIONS[1] is false")
 
 
+def _check_oauth_subtree_runs_nothing() -> None:
+    """ASSUMPTIONS[1], end to end on the real PKCE apps of the grid: the auth-exempt directory of the OAuth routes
+    also matches '<prefix>/_oauth/init' etc., which the router resolves to the {method} routes with method '_oauth'.
+    The service here HAS a member of that name: it must not run for the (rejected, never authenticated) caller."""
+    import pyarrow as pa
+
+    from vgi_rpc.wire import write_request
+
+    body = write_request("_oauth", pa.schema([]), {})
+    for c in _GRID:
+        if not c["pkce"]:
+            continue
+        client = falcon.testing.TestClient(c["app"])
+        for suffix in _SUFFIX:
+            del _RAN[:]
+            with warnings.catch_warnings():
+                warnings.simplefilter("ignore")
+                res = client.simulate_post(c["oauth_dir"].rstrip("/") + suffix, body=body, headers={"Content-Type": "application/vnd.apache.arrow.stream"})
+            if _RAN or res.status_code == 200:
+                raise RuntimeError(f"ASSUMPTIONS[1] is false: POST {c['oauth_dir'].rstrip('/') + suffix} ran {_RAN} / answered {res.status_code} without authentication")
+
+
+_check_oauth_subtree_runs_nothing()
+
+
 class _Req:
     """Duck-typed falcon.Request: exactly the attributes _AuthMiddleware reads."""
 
@@ -170,6 +203,9 @@ class _Req:
         self.user_agent = None
         self.cookies: dict = {}
         self.context = types.SimpleNamespace()
+
+    def __getattr__(self, name: str) -> object:
+        raise HarnessModelError(f"request stub has no {name}")
 
 
 def _allowed(cfg: dict, verb: str, path: str) -> bool:
@@ -184,12 +220,20 @@ def _allowed(cfg: dict, verb: str, path: str) -> bool:
     return False
 
 
-def _sig(cfg: dict, path: str) -> str:
+def _sig(cfg: dict, path: str, verb: str = "") -> str:
     prefix = cfg["prefix"]
     if path.startswith(prefix + "/health"):
         return "C20:path-prefix:health*"
     if path.startswith(prefix + "/_oauth"):
         return "C20:path-prefix:_oauth*"
+    if path.startswith("/.well-known") or path.startswith(prefix + "/.well-known"):
+        return "C20:path-prefix:.well-known*"
+    if path == prefix or path == prefix + "/":
+        return "C20:auth-skipped:landing-page"
+    if verb != "OPTIONS" and verb.upper().strip() == "OPTIONS":
+        return "C20:verb:options-lookalike"
+    if verb not in falcon.constants.COMBINED_METHODS:
+        return "C20:verb:non-standard"
     return "C20:auth-skipped:other"
 
 
@@ -216,7 +260,7 @@ def _replay(args: dict) -> str | None:
 
     name = args["tail"] if args["suffix"] == 0 else ""
     ns: dict = {}
-    if name.isidentifier() and name.isascii() and not name.startswith("_"):
+    if name.isidentifier() and name.isascii() and not name.startswith("_") and not keyword.iskeyword(name) and not keyword.issoftkeyword(name):
         exec(  # dynamic protocol with one unary method named after the path segment
             f"from typing import Protocol\n"
             f"class S(Protocol):\n    def {name}(self) -> str: ...\n"
@@ -234,11 +278,18 @@ def _replay(args: dict) -> str | None:
         warnings.simplefilter("ignore")
         app = make_wsgi_app(RpcServer(proto, impl), prefix=prefix, token_key=b"k" * 32, authenticate=reject, oauth_resource_metadata=md, enable_health_endpoint=bool(base["health"]))
     client = falcon.testing.TestClient(app)
-    http_verb = verb if verb in falcon.constants.COMBINED_METHODS else "POST"
+    # the counterexample's own verb when a WSGI server could deliver it (an HTTP token), else the standard one
+    sendable = verb.isascii() and verb != "" and all(ch.isalnum() or ch in "!#$%&'*+-.^_`|~" for ch in verb)
+    http_verb = verb if sendable else "POST"
     if _allowed(base, http_verb, path):
         return None
     body = write_request(name or "ping", pa.schema([]), {})
-    res = client.simulate_request(http_verb, path, body=body, headers={"Content-Type": "application/vnd.apache.arrow.stream"})
+    try:
+        with warnings.catch_warnings():
+            warnings.simplefilter("ignore")  # (wsgiref's validator warns about verbs it does not know)
+            res = client.simulate_request(http_verb, path, body=body, headers={"Content-Type": "application/vnd.apache.arrow.stream"})
+    except Exception:  # noqa: BLE001  the test client could not express this request
+        return None
     if calls["n"] == 0 and res.status_code != 401:
         extra = f"; the service method {name!r} ran for the rejected caller" if ran else ""
         if not ran and _sig(base, path) == "C20:path-prefix:health*" and base["health"]:
@@ -257,7 +308,7 @@ def _replay(args: dict) -> str | None:
 
 def _signature(args: dict, conc) -> str:  # noqa: ANN001
     cfg = _GRID[args["cfg"]]
-    return _sig(cfg, cfg["prefix"] + "/" + args["tail"] + _SUFFIX[args["suffix"]])
+    return _sig(cfg, cfg["prefix"] + "/" + args["tail"] + _SUFFIX[args["suffix"]], args["verb"])
 
 
 def _decide(c: dict, verb: str, path: str) -> bool:
@@ -267,8 +318,10 @@ def _decide(c: dict, verb: str, path: str) -> bool:
     try:
         c["mw"].process_request(req, None)
         passed = True
-    except falcon.HTTPUnauthorized:
-        pass
+    except falcon.HTTPError:
+        pass  # Falcon skips routing and the resource (OUTSIDE): the request stops here, whatever the status
+    except HarnessModelError:
+        raise
     except Exception:  # noqa: BLE001
         return False
     finally:
@@ -277,13 +330,13 @@ def _decide(c: dict, verb: str, path: str) -> bool:
             _middleware._current_transport.reset(tok)
     called = _CALLS["n"] > 0
     if called:
-        # the authenticator rejects: the request must stop here with 401
+        # the authenticator rejects: the request must stop here
         return not passed
     if not passed:
-        return False  # 401 without consulting the authenticator
+        return True  # refused without consulting the authenticator: nothing is dispatched either
     if _allowed(c, verb, path):
         return True
-    if is_open(_sig(c, path)):
+    if is_open(_sig(c, path, verb)):
         return True
     return False
 
@@ -329,7 +382,7 @@ def _replay_named(args: dict) -> str | None:
 @cond(q=60, t=300, stubs=_STUBS, encoded=[_middleware._AuthMiddleware.process_request, _factory.make_wsgi_app],
       bound="12 apps; verb any str len<=%d; path = prefix + '/' + <framework endpoint name from the live router | .well-known> + any str len<=%d + route suffix" % (_LV, _LX),
       replay=_replay_named,
-      signature=lambda a, conc: _sig(_GRID[a["cfg"]], _GRID[a["cfg"]]["prefix"] + "/" + _NAMES[a["name"]] + a["extra"] + _SUFFIX[a["suffix"]]))
+      signature=lambda a, conc: _sig(_GRID[a["cfg"]], _GRID[a["cfg"]]["prefix"] + "/" + _NAMES[a["name"]] + a["extra"] + _SUFFIX[a["suffix"]], a["verb"]))
 def names_sharing_a_prefix_with_framework_endpoints(cfg: int, verb: str, name: int, extra: str, suffix: int) -> bool:
     """
     pre: 0 <= cfg < _NCFG and 0 <= suffix < _NSUF and 0 <= name < _NNAMES
